@@ -129,7 +129,7 @@ def cliOps : List String → Client → Transport → List String → Option (Li
         | .abandoned => .abandoned
         | .blocked => .blocked
       cliOps rest c' t' ((outcome typedResult o' ++ " " ++ effectsTok effs) :: acc)
-    | ["slave", id] => do
+    | "slave" :: id :: _ => do
       let id ← pU8 id
       cliOps rest (c.setSlave id) t ("ok" :: acc)
     | "disc" :: fields => do
@@ -218,7 +218,7 @@ def runOp (line : String) : Option String :=
     match line.splitOn " | " with
     | head :: ops =>
       match (head.splitOn " ").filter (· ≠ "") with
-      | ["cli", kind, slave] => do
+      | "cli" :: kind :: slave :: _ => do
         let k ← pKind kind
         let c ← if slave = "-" then some (Client.attach k) else (pU8 slave).map (Client.attachSlave k)
         let outs ← cliOps ops c {} []
